@@ -1284,7 +1284,7 @@ fn finish_event(
     {
         let d = dev.0.borrow();
         if let Some(h) = &d.fault_hit {
-            ev.insert("flt".into(), json!({"kind": h.kind.name(), "drop": h.in_drop, "n": d.calls}));
+            ev.insert("flt".into(), json!({"kind": h.kind.name(), "drop": h.in_drop, "n": d.calls, "intr": d.fault_hit_intr}));
         }
         if cfg.wlog {
             ev.insert("wl".into(), json!(d.wlog.len()));
